@@ -1,8 +1,9 @@
 """C04 -- canonicalising and algebraic transforms preserve the represented tensor.
 Correspondence: Model/Transforms.v vs tensorly (cp_tensor, tucker_tensor, parafac2_tensor, tt_tensor, preprocessing):
 bit-exact on Z for cp_to_tensor / cp_flip_sign / cp_permute_factors (assignment taken from the implementation) /
-cp_mode_dot / tucker_* / pad_tt_rank / PARAFAC2 slices, toleranced on Q for the normalisations (square roots and
-QR / SVD answers are data whose contracts are checked inside Coq).
+cp_mode_dot / tucker_to_tensor / tucker_mode_dot / tt_to_tensor / tr_to_tensor / pad_tt_rank / parafac2_to_slice /
+svd_decompress_parafac2_tensor, toleranced on Q for cp_normalize / tucker_normalize / parafac2_normalise /
+from_CPTensor / svd_compress_tensor_slices (square roots and QR / SVD answers are data whose contracts are checked inside Coq).
 Predicates (independent NumPy reconstructions): dense tensor before == after, advertised canonical form,
 factorised mode product == dense mode product, operand of copy=True calls intact (second product on the same object)."""
 import contextlib, io, itertools, random
@@ -464,6 +465,26 @@ def qmats(fs):
     return "[" + "; ".join(qmat(f) for f in fs) + "]" if len(fs) else "(@nil (list (list Q)))"
 
 
+def ztens(a):
+    a = np.asarray(a)
+    return C.ztensor(list(a.shape), [int(x) for x in a.ravel()])
+
+
+def qtens(a):
+    a = np.asarray(a)
+    return C.qtensor(list(a.shape), [float(x) for x in a.ravel()])
+
+
+def ztens_list(ts):
+    return "[" + "; ".join(ztens(t) for t in ts) + "]" if len(ts) else "(@nil (tensor Z))"
+
+
+def qmat2(A):
+    """2-D array (possibly with 0 rows) as a list of rows of Q"""
+    A = np.asarray(A)
+    return "[" + "; ".join(qrow(r) for r in A) + "]" if A.shape[0] else "(@nil (list Q))"
+
+
 def integral(*arrs):
     for a in arrs:
         a = np.asarray(a)
@@ -481,6 +502,35 @@ def zcp_res(st, w, fs):
     if not integral(w, *fs) or any(np.asarray(f).ndim != 2 for f in fs):
         return "(Ok ([(99999)%Z], (@nil (list (list Z)))))"
     return f"(Ok ({zrow(np.asarray(w))}, {zmats(fs)}))"
+
+
+# ----------------------------------------------------------------------------- case shards, robust against a loaded machine
+def run_shards(chk, cases, shard=250):
+    """common.run_case_shards + serial re-runs of shards whose coqc was killed (OOM killer / timeout on the shared machine).
+    A shard that is killed three times is counted as skipped (note in the evidence), never as a verdict;
+    a shard that coqc rejects (rc 1: malformed literal, type error) stays broken."""
+    import re, time
+    failing, n_eval, broken = C.run_case_shards("C04", HEADER, "case", cases, shard=shard)
+    still, skipped = [], 0
+    for b in broken:
+        m = re.search(r"S(\d+)\.v$", str(b.get("shard", "")))
+        killed = b.get("rc") in (-9, -15, 124, 137, 143) or (b.get("rc") not in (0, 1) and not b.get("stderr"))
+        if not (m and killed):
+            still.append(b); continue
+        k = int(m.group(1)); chunk = cases[k * shard:(k + 1) * shard]
+        done = False
+        for attempt in range(3):
+            time.sleep(2 + 5 * attempt)
+            f2, n2, b2 = C.run_case_shards("C04", HEADER, "case", chunk, shard=shard, tag=f"retry{k}_{attempt}")
+            if not b2:
+                failing |= f2; n_eval += n2; done = True; break
+            if any(x.get("rc") == 1 for x in b2):
+                still.extend(b2); done = True; break
+        if not done:
+            skipped += len(chunk)
+            chk.notes.append(f"shard S{k} ({len(chunk)} cases) skipped: coqc killed by the system three times (rc {b.get('rc')})")
+    chk.cov["cases_skipped_resource"] = skipped
+    return failing, n_eval, still
 
 
 # ----------------------------------------------------------------------------- the run
@@ -607,9 +657,9 @@ def run(chk):
         chk.hist("feature", feat)
 
     # --- (4) predicates on the other formats
-    run_other_formats(chk, rng, judge, mult)
+    run_other_formats(chk, rng, judge, mult, add_case)
 
-    failing, n_eval, broken = C.run_case_shards("C04", HEADER, "case", cases, shard=300)
+    failing, n_eval, broken = run_shards(chk, cases)
     chk.checker_cmds.append("coqc (vm_compute) on generated build/cases/C04/*.v: Corr.C04.failing")
     chk.cov["traces_validated_against_impl"] = n_eval
     chk.cov["exhaustive"] = False
